@@ -434,7 +434,7 @@ def _dominating_guards(m, f, call, attr):
     return out
 
 
-def poscheck(repo, schema=None, sites=None):
+def poscheck(repo, schema=None, sites=None, only=None):
     from . import traversal as T
     res = RuleResult("R-POSCHECK")
     schema = schema or Schema(repo)
@@ -452,6 +452,7 @@ def poscheck(repo, schema=None, sites=None):
     # requirement sites in type_check
     req_sites = []  # (func, last attr, call)
     call_nodes = {}  # (func fq, attr) -> helper call on <param>.<attr>
+    compat_nodes = {}  # (func fq, attr) -> (_types_are_compatible call whose checked side is <param>.<attr>[..], "<param>.<attr>")
     for f in tc.funcs.values():
         for n in walk_no_nested_funcs(f.node):
             if isinstance(n, ast.Call):
@@ -465,6 +466,8 @@ def poscheck(repo, schema=None, sites=None):
                             req_sites.append((f, x.attr, "helper " + cn))
                             if isinstance(x.value, ast.Name) and cn.startswith("_type_check_") and len(n.args) >= 1 and a is n.args[0]:
                                 call_nodes[(f.fq, x.attr)] = n
+                            if isinstance(x.value, ast.Name) and cn == "_types_are_compatible" and a is n.args[0]:
+                                compat_nodes[(f.fq, x.attr)] = (n, ast.unparse(x))
                         elif isinstance(x, ast.Name):
                             req_sites.append((f, "<self>", "helper " + cn))
             if isinstance(n, ast.Compare):
@@ -509,6 +512,16 @@ def poscheck(repo, schema=None, sites=None):
             if len(res.samples) < 3:
                 res.samples.append(f"{cls}.{fname}: {found[0][0].name} ({found[0][1]})")
             # the positional requirement holds for every node of the class: the helper call is not skipped for some of them
+            # a binary compatibility check may be excused by the *declared* side (validated where it is declared), never by
+            # the kind of the expression being checked
+            for f, how in found:
+                if (f.fq, fname) in compat_nodes:
+                    call, checked = compat_nodes[(f.fq, fname)]
+                    own = [g for g in _dominating_guards(tc, f, call, fname) if checked + "[" in g or checked + "." in g]
+                    if own:
+                        res.add(f"{cls}.{fname}|excused-by-own-type", f"{f.name} skips the compatibility check of {cls}.{fname} depending on "
+                                f"the checked expression itself ({'; '.join(own)}): expressions of exactly the kinds that cannot be "
+                                "compatible are never compared with the declared type", tc.rel, call.lineno, f.name)
             direct = [(f, call_nodes[(f.fq, fname)]) for f, how in found if (f.fq, fname) in call_nodes]
             if direct and len(direct) == len(found):
                 blocked = []
@@ -525,6 +538,15 @@ def poscheck(repo, schema=None, sites=None):
         res.add(f"{cls}.{fname}", f"no positional type requirement for {cls}.{fname}: an expression of any type is "
                 f"accepted in that position (e.g. a boolean or an enum where an integer is needed)", tc.rel, 0, "check_types")
     res.analysed = [tc.rel, "compiler/util/ir_data.py"]
+    seen_keys = set()
+    uniq = []
+    for x in res.findings:
+        if x.key not in seen_keys:
+            seen_keys.add(x.key)
+            uniq.append(x)
+    res.findings = uniq
+    if only is not None:
+        res.findings = [x for x in res.findings if any(p in x.key for p in only)]
     return res
 
 
